@@ -199,7 +199,7 @@ Affected(c) == IF c.op = "RemoveAll" THEN Subtree(ref, c.p)
                ELSE IF c.op = "Rename" /\ c.p # c.q THEN Subtree(ref, c.p) \cup Subtree(ref, c.q) \cup {Rebase(s, c.p, c.q) : s \in Subtree(ref, c.p)}
                ELSE {}
 C12_Subtree ==
-  [][ (epoch' = epoch /\ last'.res = "ok" /\ last'.call.op \in {"RemoveAll", "Rename"}) =>
+  [][ (epoch' = epoch /\ narch' > narch /\ last'.res = "ok" /\ last'.call.op \in {"RemoveAll", "Rename"}) =>
         LET c == last'.call IN
         /\ \A x \in LiveKeys(index) \ Affected(c) : Live(index', x) /\ Node(index'[x]) = Node(index[x])
         /\ \A x \in LiveKeys(index') \ Affected(c) : Live(index, x)
